@@ -109,8 +109,8 @@ BAD = (
     "class VwMeta(type):\n    made = 0\n    def __new__(mcs, name, bases, ns):\n        VwMeta.made += 1\n        if VwMeta.made > 1:\n            raise RuntimeError('metaclass refuses re-creation')\n        return super().__new__(mcs, name, bases, ns)\n"
     "@dataclasses.dataclass\nclass VwBadMeta(metaclass=VwMeta):\n    x: int = 0\n",
     # classes made in a factory share one repr: <class 'vw0.vw_factory.<locals>.VwLocal'>
-    "def vw_factory(kind):\n    if kind == 'bad':\n        class VwLocal:\n            x: int = 0\n        return VwLocal\n"
-    "    @dataclasses.dataclass\n    class VwLocal:\n        x: int = 0\n        y: str = 'y'\n    return VwLocal\n",
+    "def vw_factory(kind, default='y', frozen=False):\n    if kind == 'bad':\n        class VwLocal:\n            x: int = 0\n        return VwLocal\n"
+    "    @dataclasses.dataclass(frozen=frozen)\n    class VwLocal:\n        x: int = 0\n        y: str = default\n    return VwLocal\n",
 )
 
 
@@ -226,7 +226,8 @@ class C19(PropBase):
                 steps.append({"op": "slot_bad", "what": rng.choice(["plain", "meta", "factory-bad"])})
                 continue
             if sw.get("repeat_name") and r < 0.25:
-                steps.append({"op": "slot_factory", "dict": rng.random() < 0.3, "weakref": rng.random() < 0.5})
+                steps.append({"op": "slot_factory", "dict": rng.random() < 0.3, "weakref": rng.random() < 0.5,
+                              "default": rng.choice(["y", "y", "other", ""]), "frozen": rng.random() < 0.3})
                 continue
             if sw.get("clear") and r < 0.3:
                 steps.append({"op": "clear", "group": "all"})
@@ -313,8 +314,16 @@ class C19(PropBase):
             sess.decolog.append(("bad", step["what"], out.ok))
             return Outcome(out.ok, "decorated" if out.ok else None, out.exc)
         if op == "slot_factory":
-            target = mod.vw_factory("good")
+            target = mod.vw_factory("good", step.get("default", "y"), bool(step.get("frozen")))
             out = sess.guarded(sess.call, step, tlc.slotted, target, dict=step["dict"], weakref=step["weakref"])
+            if out.ok:
+                # same-named classes are different classes: each product keeps its own defaults and flags
+                sess.__dict__.setdefault("_c19_keep", []).append(out.value)  # (earlier products stay alive)
+                got = _try(lambda: [out.value().y, out.value.__dataclass_params__.frozen, out.value is not target,
+                                    sum(1 for k in sess._c19_keep if k is out.value)])
+                want = ("ok", [step.get("default", "y"), bool(step.get("frozen")), True, 1])
+                if got != want:
+                    sess.violation("twin-mismatch", i, {"aspect": "factory-product", "slotted": _r(got), "twin": _r(want)}, sig="twin-mismatch:factory-product")
             sess.decolog.append(("factory", "good", out.ok))
             if any(k == "factory" or (k == "bad" and w == "factory-bad") for k, w, _ in sess.decolog[:-1]):
                 sess.faults["repeat_name"] += 1
